@@ -44,6 +44,8 @@ def _worker(ys):
     for y in ys:
         ybd = 0
         allb = [b for m in range(1, 13) for b in _bdays(y, m)]
+        prevb = [b for m in range(1, 13) for b in _bdays(y - 1, m)] if y > 1602 else []
+        all3 = prevb + allb + ([b for m in range(1, 13) for b in _bdays(y + 1, m)] if y < 4094 else [])
         for m in range(1, 13):
             days = _bdays(y, m)
             for i, d in enumerate(days, 1):
@@ -63,25 +65,37 @@ def _worker(ys):
                     r = call("__bizda_to_ywd", biz, P0)
                     cmp("__bizda_to_ywd", what, tuple(r.get(k) for k in ("y", "c", "w", "hang")) if isinstance(r, dict) else r,
                         (iy, iw, iwd, HANG[datetime.date(iy, 1, 1).isoweekday()]))
-                    # the adder, within the year (beyond: the neighbouring class year has its own turn)
+                    # the adder, also across the ends of the year (the carry into the neighbouring year is the adder's own)
                     if i in (1, 2, len(days) - 1, len(days)) or d.day in (14, 15):
-                        for k in (-ybd + 1, -45, -23, -22, -21, -20, -6, -5, -1, 0, 1, 4, 5, 19, 20, 21, 22, 23, 24, 46, len(allb) - ybd):
-                            j = ybd - 1 + k
-                            if not (0 <= j < len(allb)):
+                        for k in (-ybd + 1, -ybd, -ybd - 3, -45, -23, -22, -21, -20, -6, -5, -1, 0, 1, 4, 5, 19, 20, 21, 22, 23, 24, 46,
+                                  len(allb) - ybd, len(allb) - ybd + 1, len(allb) - ybd + 12):
+                            j = len(prevb) + ybd - 1 + k
+                            if not (0 <= j < len(all3)):
                                 continue
-                            e = allb[j]
+                            e = all3[j]
                             r = call("__bizda_add_b", biz, k)
                             cmp("__bizda_add_b", "%s %+db" % (what, k), (r.get("y"), r.get("m"), r.get("bd")) if isinstance(r, dict) else r,
                                 (e.year, e.month, _bdays(e.year, e.month).index(e) + 1))
+                    # calendar days and weeks added to a business-day date: where the day that many days on is a business day, that day
+                    if i in (1, len(days)) or d.day in (14, 15):
+                        for fn_, mult, cnts in (("__bizda_add_d", 1, (-400, -70, -14, -8, -7, -1, 1, 6, 7, 14, 21, 70, 400)), ("__bizda_add_w", 7, (-60, -2, -1, 1, 2, 3, 60))):
+                            for k in cnts:
+                                e = d + datetime.timedelta(days=k * mult)
+                                if e.isoweekday() > 5 or not (1602 <= e.year <= 4094):
+                                    continue
+                                r = call(fn_, biz, k)
+                                cmp(fn_, "%s %+d%s" % (what, k, "d" if mult == 1 else "w"), (r.get("y"), r.get("m"), r.get("bd")) if isinstance(r, dict) else r,
+                                    (e.year, e.month, _bdays(e.year, e.month).index(e) + 1))
                 except fold.Abort as e:
                     bad.setdefault("__bizda_get_yday", []).append((what, "abort: %s" % e, ""))
     return n, bad
 
 
-FUNCS = ("__bizda_get_mday", "__bizda_get_wday", "__bizda_get_yday", "__bizda_to_ymd", "__bizda_to_daisy", "__bizda_to_ywd", "__bizda_add_b")
+FUNCS = ("__bizda_get_mday", "__bizda_get_wday", "__bizda_get_yday", "__bizda_to_ymd", "__bizda_to_daisy", "__bizda_to_ywd", "__bizda_add_b",
+         "__bizda_add_d", "__bizda_add_w")
 
 
-def run_parallel(R, tu, rule, jobs=12):
+def run_parallel(R, tu, rule, jobs=12, only=None):
     import multiprocessing as mp
     for f in FUNCS + ("__daisy_to_ymd",):
         if tu.func(f) is None or getattr(tu.func(f), "body", None) is None:
@@ -103,6 +117,8 @@ def run_parallel(R, tu, rule, jobs=12):
         for key, lst in b.items():
             bad.setdefault(key, []).extend(lst)
     for f in FUNCS:
+        if only is not None and f not in only:
+            continue
         if f in bad:
             lst = sorted(bad[f])
             what, got, exp = lst[0]
